@@ -806,6 +806,41 @@ def far_program(seed):
     return "\n".join(lines) + "\n", [("small-lamp", x, y) for x, y in pos]
 
 
+def obstacle_program(seed):
+    """a user-placed chest drives a lamp 14-22 tiles away in one of eight directions (a relay chain is
+    needed), and a block of unrelated user-placed entities lies across the way -- where a relay pole would
+    like to stand.  Exercises the occupancy map at negative and positive coordinates alike."""
+    import random
+
+    r = random.Random(seed)
+    dx, dy = r.choice([(1, 0), (-1, 0), (0, 1), (0, -1), (-1, -1), (1, -1), (-1, 1), (1, 1)])
+    dist = r.randint(14, 22)
+    ox, oy = r.choice([(0, 0), (0, 0), (r.randint(-6, 6), r.randint(-6, 6))])
+    fx, fy = ox + dx * dist, oy + dy * dist
+    lines = [f'Entity src = place("steel-chest", {ox}, {oy});',
+             f'Entity far = place("small-lamp", {fx}, {fy});',
+             'far.enable = src.output["iron-plate"] > 100;']
+    exp = [("steel-chest", ox, oy), ("small-lamp", fx, fy)]
+    used = {(ox, oy), (fx, fy)}
+    k = 0
+    # the block: every tile at distance 5..10 along the way, one or two tiles to each side
+    w = r.choice([0, 1, 1, 2])
+    for t in range(5, 11):
+        for s in range(-w, w + 1):
+            x, y = ox + dx * t + (-dy if dx and dy else (0 if dx else s)) * (s if dx and dy else 1), \
+                   oy + dy * t + (dx if dx and dy else (s if dx else 0)) * (s if dx and dy else 1)
+            if (x, y) in used or r.random() < 0.15:
+                continue
+            used.add((x, y))
+            proto = r.choice(["small-lamp", "small-lamp", "steel-chest", "iron-chest"])
+            lines.append(f'Entity ob{k} = place("{proto}", {x}, {y});')
+            if proto == "small-lamp" and r.random() < 0.4:
+                lines.append(f'ob{k}.enable = src.output["copper-plate"] > {k};')
+            exp.append((proto, x, y))
+            k += 1
+    return "\n".join(lines) + "\n", exp
+
+
 # ------------------------------------------------------------------ twin: pole build vs pole-less build
 def logical_view(bpj, harvest):
     """the circuit without poles, in terms of the compiler's placement ids: configuration of every
